@@ -4,7 +4,7 @@
 From Coq Require Import Extraction ExtrOcamlBasic.
 From Coq Require Import List NArith ZArith String.
 From Gen Require Import Tables.
-From Model Require Import Base Names Flt F32 Matches Detect Declared Cd Decode Cli Md Md32 Layers SbLangs.
+From Model Require Import Base Names Flt F32 Matches Detect Declared Cd Decode Cli Md Md32 Layers SbLangs Jaro Jaro32.
 
 Extraction Language OCaml.
 Separate Extraction
@@ -22,4 +22,5 @@ Separate Extraction
   Cli.run
   Md.mess_ratio Md.suspicious Md32.md_consts32
   Layers.alpha_unicode_split
-  SbLangs.sb_langs32.
+  SbLangs.sb_langs32
+  Jaro32.popularity32 Jaro32.jaro32.
